@@ -69,6 +69,8 @@ SRC_TAG_RE = re.compile(r"/\*@([^*]+)\*/")
 def classify(ob, h):
     """-> (kind, props, tag)"""
     name, desc = ob["name"], ob["desc"]
+    if ob.get("function", "").startswith("h_") and ob["function"] != h["fn"]:
+        return "foreign", [], name      # another harness of the same file (present when no DFCC pass prunes it)
     m = TAG_RE.match(desc)
     if desc.startswith("canary."):
         return "canary", [], desc
@@ -109,7 +111,7 @@ def build_and_run(h, tier, workroot, keep=False):
     name = h["name"]
     wd = os.path.join(workroot, name)
     os.makedirs(wd, exist_ok=True)
-    res = {"name": name, "cmds": [], "obligations": [], "undecided": None, "wall": 0.0, "solver": h.get("solver", "minisat"),
+    res = {"name": name, "cmds": [], "obligations": [], "undecided": None, "wall": 0.0, "solver": h.get("solver", "cadical"),
            "warnings": []}
     defs = ["-D" + GUARD] + ["-D" + d for d in h.get("defines", [])] + ["-D" + d for d in h.get("defines_" + tier, [])]
     src = os.path.join(VERIF, "harness", h["src"])
@@ -170,9 +172,11 @@ def build_and_run(h, tier, workroot, keep=False):
     cb += ["--unwinding-assertions"]
     if h.get("object_bits"):
         cb += ["--object-bits", str(h["object_bits"])]
-    solver = h.get("solver_" + tier, h.get("solver", "minisat"))
+    solver = h.get("solver_" + tier, h.get("solver", "cadical"))
     res["solver"] = solver
-    if solver == "kissat":
+    if solver == "cadical":
+        cb += ["--sat-solver", "cadical"]
+    elif solver == "kissat":
         cb += ["--external-sat-solver", "kissat"]
     elif solver == "z3":
         cb += ["--z3"]
@@ -181,18 +185,77 @@ def build_and_run(h, tier, workroot, keep=False):
     cb += h.get("cbmc_flags", [])
     tmo = h.get("timeout_" + tier, h.get("timeout", 900))
     # plain-text UI: --json-ui always embeds a full trace per failed obligation (gigabytes on struct-heavy code)
-    rc, out, err, w = sh(cb, cwd=wd, timeout=tmo, mem_gb=h.get("mem_gb", 24))
-    res["cmds"].append(" ".join(cb)); res["wall"] += w; res["solver_wall"] = w
-    if rc == -9:
-        res["undecided"] = "cbmc timeout after %ds" % tmo
-        return res
+    nshards = h.get("shards_" + tier, h.get("shards", 1))
+    outs = []
+    if nshards > 1:
+        # shard the obligations over parallel cbmc processes (each re-runs symex; unwinding assertions are generated
+        # by symex and are checked in EVERY shard regardless of --property, measured)
+        rc, out, err, w = sh(cb + ["--show-properties", "--json-ui"], cwd=wd, timeout=300)
+        names = []
+        try:
+            for e in json.loads(out):
+                for pr in e.get("properties", []):
+                    names.append(pr["name"])
+        except Exception as ex:
+            res["undecided"] = "cannot list properties for sharding: %s" % ex
+            return res
+        heavy = [n for n in names if re.search(r"\.(assertion|postcondition|precondition|assigns)\.", n)]
+        light = [n for n in names if n not in set(heavy)]
+        shards = [[] for _ in range(nshards)]
+        for i, n in enumerate(heavy):
+            shards[i % nshards].append(n)
+        for i, n in enumerate(light):
+            shards[i % nshards].append(n)
+        res["shards"] = nshards
+        t_sh = time.time()
+
+        def run_shard(lst):
+            cmd = list(cb)
+            for n in lst:
+                cmd += ["--property", n]
+            return sh(cmd, cwd=wd, timeout=tmo, mem_gb=h.get("mem_gb", 24))
+        with ThreadPoolExecutor(max_workers=nshards) as ex:
+            shard_res = list(ex.map(run_shard, [s for s in shards if s]))
+        w = time.time() - t_sh
+        res["cmds"].append(" ".join(cb) + "   [x%d shards via --property]" % nshards)
+        for rc, out, err, _w in shard_res:
+            if rc == -9:
+                res["undecided"] = "cbmc timeout after %ds (shard)" % tmo
+                return res
+            outs.append((rc, out, err))
+    else:
+        rc, out, err, w = sh(cb, cwd=wd, timeout=tmo, mem_gb=h.get("mem_gb", 24))
+        res["cmds"].append(" ".join(cb))
+        if rc == -9:
+            res["undecided"] = "cbmc timeout after %ds" % tmo
+            return res
+        outs.append((rc, out, err))
+    res["wall"] += w; res["solver_wall"] = w
+    merged = {}
+    for rc, out, err in outs:
+        part = parse_text_results(out, err, rc, wd, h, res)
+        if part is None:
+            return res
+        for ob in part:
+            prev = merged.get(ob["name"])
+            if prev is None or (prev["status"] == "SUCCESS" and ob["status"] != "SUCCESS"):
+                merged[ob["name"]] = ob
+    res["obligations"] = list(merged.values())
+    res["trace_cmd"] = cb
+    res["wd"] = wd
+    res["timeout"] = tmo
+    return res
+
+
+def parse_text_results(out, err, rc, wd, h, res):
+    obligations = []
     text = out + "\n" + err
     for ln in text.split("\n"):
         if re.search(r"ignoring|no body for|does not have a contract|out of memory|std::bad_alloc", ln):
             res["warnings"].append(ln[:300])
     if "** Results:" not in out or not re.search(r"VERIFICATION (SUCCESSFUL|FAILED)", out):
         res["undecided"] = "cbmc produced no result list (rc=%s): %s" % (rc, text[-1500:])
-        return res
+        return None
     cur_file, cur_fn = "", ""
     hdr = re.compile(r"^(\S.*) function (\S+)$")
     prop = re.compile(r"^\[([^\]]+)\] (?:file (\S+) )?line (\d+) (.*): (SUCCESS|FAILURE|UNKNOWN|ERROR)$")
@@ -221,11 +284,8 @@ def build_and_run(h, tier, workroot, keep=False):
                     cur_file, cur_fn = "", ""
                 continue
         ob["kind"], ob["props"], ob["tag"] = classify(ob, h)
-        res["obligations"].append(ob)
-    res["trace_cmd"] = cb
-    res["wd"] = wd
-    res["timeout"] = tmo
-    return res
+        obligations.append(ob)
+    return obligations
 
 
 def fetch_trace(r, propname):
@@ -281,6 +341,8 @@ def flatten_value(prefix, v, out):
     n = v.get("name")
     if "members" in v:
         for m in v["members"]:
+            if m["name"].startswith("$"):
+                continue      # compiler padding
             flatten_value(prefix + "." + m["name"], m["value"], out)
     elif "elements" in v:
         for e in v["elements"]:
@@ -413,7 +475,7 @@ def report(pid, tier, seed, pdef, hs, results, extra_results, known, floors, wor
                 undecided.append("%s: vacuity guard: canary '%s' not reachable (status %s) - harness is vacuous"
                                  % (hn, need, o["status"]))
         for o in obs:
-            if o["kind"] == "canary":
+            if o["kind"] in ("canary", "foreign"):
                 continue
             if o["kind"] in ("model", "unwind"):
                 if o["status"] != "SUCCESS":
@@ -425,7 +487,7 @@ def report(pid, tier, seed, pdef, hs, results, extra_results, known, floors, wor
             elif o["status"] != "SUCCESS":
                 notes.append("%s: obligation %s (%s) is %s; it belongs to %s and is reported by that check"
                              % (hn, o["name"], o["tag"], o["status"], ",".join(o["props"]) or "-"))
-        total_count = len([o for o in obs if o["kind"] != "canary"])
+        total_count = len([o for o in obs if o["kind"] not in ("canary", "foreign")])
         new_floors[hn] = total_count
         fl = floors.get(hn)
         if fl is not None and total_count < int(0.8 * fl):
